@@ -97,7 +97,7 @@ def _inplace_offenders(fd):
             if n.target.id in params and n.target.id in fresh_rebound and any(isinstance(a, ast.Assign) and a.lineno < n.lineno and any(isinstance(t, ast.Name) and t.id == n.target.id for t in a.targets)
                                                                               for a in body_nodes):
                 continue        # the parameter name was rebound to a fresh value before the update
-            out.append((n.lineno, ast.unparse(n)[:60]))
+            out.append((n.lineno, ast.unparse(n)[:60], n.target.id))
     # element / slice / mask stores into an argument array, and numpy calls writing into it through out=
     def rebound_before(name, lineno):
         return name in fresh_rebound and any(isinstance(a, ast.Assign) and a.lineno < lineno and any(isinstance(t, ast.Name) and t.id == name for t in a.targets) for a in body_nodes)
@@ -105,12 +105,49 @@ def _inplace_offenders(fd):
         tgts = n.targets if isinstance(n, ast.Assign) else ([n.target] if isinstance(n, ast.AugAssign) else [])
         for t in tgts:
             if isinstance(t, ast.Subscript) and isinstance(t.value, ast.Name) and t.value.id in alias and not rebound_before(t.value.id, n.lineno):
-                out.append((n.lineno, ast.unparse(n)[:60]))
+                out.append((n.lineno, ast.unparse(n)[:60], t.value.id))
         if isinstance(n, ast.Call):
             for kw in n.keywords:
                 if kw.arg == 'out' and isinstance(kw.value, ast.Name) and kw.value.id in alias and not rebound_before(kw.value.id, n.lineno):
-                    out.append((n.lineno, ast.unparse(n)[:60]))
+                    out.append((n.lineno, ast.unparse(n)[:60], kw.value.id))
+    fd._vs_alias = alias
     return out
+
+
+def _only_fresh_actuals(mod, funcs, helper, pname, depth=0):
+    """True iff `helper` is private to its module (leading underscore, not exported), is called somewhere in it, and at every call site the argument bound to `pname` is a name
+    the caller bound to a fresh object (a literal, a constructor / numpy creation call), not one of the caller's own parameters or an alias of one (checked transitively)."""
+    if not helper.name.startswith('_') or depth > 3:
+        return False
+    params = [a.arg for a in helper.args.args]
+    if pname not in params:
+        return False            # an alias of a parameter: keep it simple, report
+    pos = params.index(pname)
+    sites = []
+    for caller in funcs:
+        if caller is helper: continue
+        for c in ast.walk(caller):
+            if isinstance(c, ast.Call) and isinstance(c.func, ast.Name) and c.func.id == helper.name:
+                sites.append((caller, c))
+    if not sites:
+        return False
+    for caller, c in sites:
+        actual = c.args[pos] if pos < len(c.args) else next((k.value for k in c.keywords if k.arg == pname), None)
+        if not isinstance(actual, ast.Name):
+            return False
+        _inplace_offenders(caller)
+        if actual.id in getattr(caller, '_vs_alias', set()):
+            # the caller hands on (an alias of) one of its own parameters: fine only if the caller is itself such a private helper
+            cparams = [a.arg for a in caller.args.args]
+            if actual.id in cparams and _only_fresh_actuals(mod, funcs, caller, actual.id, depth + 1):
+                continue
+            return False
+        defs = [a for a in ast.walk(caller) if isinstance(a, ast.Assign) and any(isinstance(t, ast.Name) and t.id == actual.id for t in a.targets)]
+        fresh = lambda v: isinstance(v, (ast.Dict, ast.List, ast.Set, ast.Constant, ast.BinOp, ast.ListComp, ast.DictComp)) or \
+            (isinstance(v, ast.Call) and ast.unparse(v.func).split('.')[-1] in ('dict', 'list', 'set', 'zeros', 'zeros_like', 'empty', 'empty_like', 'ones', 'full', 'copy', 'array', 'Dict', 'nbDict', 'nbList', 'List'))
+        if not defs or not all(fresh(a.value) for a in defs):
+            return False
+    return True
 
 
 def inplace_lint(chk, repo, rule, paths, floor_funcs=1):
@@ -123,10 +160,13 @@ def inplace_lint(chk, repo, rule, paths, floor_funcs=1):
     for path in paths:
         mod = repo.by_path(path)
         offenders = []
-        for fd in ast.walk(mod.tree):
+        funcs = [fd for fd in ast.walk(mod.tree) if isinstance(fd, ast.FunctionDef)]
+        for fd in funcs:
             if isinstance(fd, ast.FunctionDef):
                 nfunc += 1
-                for ln, txt in _inplace_offenders(fd):
+                for ln, txt, name in _inplace_offenders(fd):
+                    if _only_fresh_actuals(mod, funcs, fd, name):
+                        continue      # a private helper filling a container every caller creates itself: nobody's argument is modified
                     offenders.append(f'{fd.name} line {ln}: `{txt}` updates an argument (or a plain alias of one) in place; with array inputs the caller\'s array is modified and a second use sees the modified values')
         chk.ob(rule, f'{path}: no kernel updates one of its arguments in place (array calls must equal scalar calls, arguments stay intact)', not offenders, '; '.join(offenders[:3]), mod.rel(),
                key=f'{rule}|{path}', method='alias-aware augmented-assignment lint (fixture-checked)')
